@@ -14,37 +14,6 @@ namespace Ovld
 
 /-! ## generic list facts -/
 
-theorem eraseDups_length_le {α : Type} [BEq α] : ∀ (n : Nat) (l : List α), l.length ≤ n →
-    l.eraseDups.length ≤ l.length
-  | _, [], _ => by simp
-  | 0, _ :: _, h => by simp at h
-  | n + 1, a :: as, h => by
-    rw [List.eraseDups_cons]
-    have h1 : (as.filter fun b => !b == a).length ≤ as.length := List.length_filter_le _ _
-    have h2 := eraseDups_length_le n (as.filter fun b => !b == a) (by simp at h; omega)
-    simp only [List.length_cons]
-    omega
-
-theorem nodup_of_eraseDups_length {α : Type} [BEq α] [LawfulBEq α] : ∀ (n : Nat) (l : List α), l.length ≤ n →
-    l.eraseDups.length = l.length → l.Nodup
-  | _, [], _, _ => List.nodup_nil
-  | 0, _ :: _, h, _ => by simp at h
-  | n + 1, a :: as, h, he => by
-    rw [List.eraseDups_cons] at he
-    simp only [List.length_cons] at he h
-    have h1 : (as.filter fun b => !b == a).length ≤ as.length := List.length_filter_le _ _
-    have h2 := eraseDups_length_le n (as.filter fun b => !b == a) (by omega)
-    have hlen : (as.filter fun b => !b == a).length = as.length := by omega
-    have hfe : as.filter (fun b => !b == a) = as := List.length_filter_eq_length_iff.mp hlen |> fun hall =>
-      List.filter_eq_self.mpr hall
-    rw [hfe] at he
-    have ih := nodup_of_eraseDups_length n as (by omega) (by omega)
-    rw [List.nodup_cons]
-    refine ⟨?_, ih⟩
-    intro hmem
-    have := (List.filter_eq_self.mp hfe) a hmem
-    simp at this
-
 /-- in an association list with distinct keys, `find?` on a key returns its pair -/
 theorem find_fst_of_mem {α β : Type} [DecidableEq α] : ∀ (l : List (α × β)), (l.map (·.1)).Nodup →
     ∀ (a : α) (b : β), (a, b) ∈ l → l.find? (fun p => p.1 == a) = some (a, b)
